@@ -19,7 +19,8 @@ RULE = ("the C05 storage histories (with key-override writes to shared keys, Non
         "backend: bytes behind c/<h> must hash to <h>, bytes must equal those recorded when the memento "
         "was created, equal bytes must share one versioned object; non-trivial = histories in which a live "
         "memento survived an overwrite of its shared override key or a forget of another call, or two "
-        "functions stored identical bytes")
+        "functions stored identical bytes"
+        '; rounds 7-9: earlier mementos re-read through the writing backend, partitions with entries inherited from a merge parent')
 ASSUMPTIONS = [
     "a memento stops being 'live' when its own call is re-memoized or forgotten (the property speaks of "
     "changes made for other calls)",
